@@ -262,6 +262,15 @@ def sig_K16(prop, cfg, issue):
 SIGS['K16'] = sig_K16
 
 
+def sig_K19(prop, cfg, issue):
+    return (prop == 'C15' and cfg.get('kind') == 'IHS' and cfg.get('hook') == 'reiter'
+            and int(cfg.get('reiter_n', 10 ** 9)) < int(cfg.get('n_iter', 0))
+            and issue.get('what') == 'out-of-range' and issue.get('name') in ('PAR', 'bw'))
+
+
+SIGS['K19'] = sig_K19
+
+
 def sig_K17(prop, cfg, issue):
     return (prop == 'C02' and cfg.get('kind') == 'BHA' and cfg.get('objective') == 'bufout'
             and issue.get('what') in ('best-not-min', 'best-increased', 'history-best-increased', 'best-pos-not-evaluated',
